@@ -216,12 +216,59 @@ def build_strategy(spec):
     return getattr(S, spec["name"])(**kw)
 
 
-def weight_tensors(wspec, D):
-    """wspec: None | list (one per residual) of {"shape": […], "values": flat list}"""
+def weight_layout(t, layout, spec):
+    """weight tensor with the logical values `t` and the requested memory layout: (tensor, buffer, layout)
+    contig | mT (transposed storage of the symmetric blocks) | slice (last dim of a wider buffer) | expand (a weight of a
+    shorter documented shape expanded, stride 0, to this one) | tbatch (first two batch dims stored transposed) |
+    bslice (slice of a longer buffer along the second batch dim; the first one if there is only one)"""
+    nb = t.dim() - 2
+    if layout == "mT":
+        return t.mT.contiguous().mT, None, layout
+    if layout == "slice":
+        v, buf = G.laid_out(t, "slice")
+        return v, buf, layout
+    if layout == "expand" and spec.get("base_shape") is not None:
+        base = t.reshape(-1, *spec["shape"][-2:])[: int(math.prod(spec["base_shape"][:-2]))].reshape(spec["base_shape"]).clone()
+        return base.expand(*spec["shape"]), None, layout
+    if layout == "tbatch" and nb >= 2:
+        return t.transpose(0, 1).contiguous().transpose(0, 1), None, layout
+    if layout == "bslice" and nb >= 1:
+        dim = 1 if nb >= 2 else 0
+        shp = list(t.shape); shp[dim] += 2
+        buf = torch.full(shp, G.GUARD, dtype=t.dtype)
+        buf.narrow(dim, 1, t.shape[dim]).copy_(t)
+        return buf.narrow(dim, 1, t.shape[dim]), (buf, dim), layout
+    return t.clone(), None, "contig"
+
+
+def weight_tensors(wspec, D, with_info=False):
+    """wspec: None | list (one per residual) of {"shape": […], "values": flat list, ["layout": …, "base_shape": …]}
+    (`values` are the logical values of the full shape; for layout `expand` they are constant along the expanded dims)"""
     if wspec is None:
-        return None
-    ws = [torch.tensor(w["values"], dtype=torch.float64).to(D).reshape(w["shape"]) for w in wspec]
-    return ws
+        return (None, []) if with_info else None
+    ws, info = [], []
+    for w in wspec:
+        if isinstance(w.get("alias_of"), int):
+            ws.append(ws[w["alias_of"]]); info.append(None)
+            continue
+        t = torch.tensor(w["values"], dtype=torch.float64).to(D).reshape(w["shape"])
+        v, buf, lay = weight_layout(t, w.get("layout", "contig"), w)
+        ws.append(v); info.append((buf, lay))
+    return (ws, info) if with_info else ws
+
+
+def weight_guard_ok(info):
+    for it in info:
+        if it is None or it[0] is None:
+            continue
+        buf, lay = it
+        if lay == "slice" and not G.guard_ok(buf, "slice"):
+            return False
+        if lay == "bslice":
+            b_, dim = buf
+            if not (bool((b_.narrow(dim, 0, 1) == G.GUARD).all()) and bool((b_.narrow(dim, b_.shape[dim] - 1, 1) == G.GUARD).all())):
+                return False
+    return True
 
 
 def pass_weight(ws, style):
@@ -236,6 +283,46 @@ class Env:
     pass
 
 
+def target_tensors(tg, D):
+    """list of target tensors (or None) with their layouts; aliases share the tensor object"""
+    if tg is None:
+        return None, []
+    tl, info = [], []
+    for t in tg:
+        if t is None:
+            tl.append(None); info.append(None)
+        elif isinstance(t.get("alias_of"), int):
+            tl.append(tl[t["alias_of"]]); info.append(None)
+        else:
+            v, buf = G.laid_out(torch.tensor(t["values"], dtype=torch.float64).to(D).reshape(t["shape"]), t.get("layout"))
+            tl.append(v); info.append((buf, t.get("layout")))
+    return tl, info
+
+
+def pack_target(case, tl):
+    if tl is None:
+        return None
+    return tl[0] if (len(case["roots"]) == 1 and not case.get("tuple_out")) else (tuple(tl) if case.get("target_tuple") else tl)
+
+
+def effective_case(case, ci, prev=None):
+    """the data of call `ci`: input leaves / targets / step weights may be replaced per call"""
+    call = case["calls"][ci]
+    base = prev if prev is not None else case
+    e = dict(base)
+    if call.get("inputs"):
+        leaves = [dict(lf) for lf in base["leaves"]]
+        for k_, ov in call["inputs"].items():
+            leaves[int(k_)].update(ov)
+        e["leaves"] = leaves
+    if "targets" in call:
+        e["targets"] = call["targets"]
+    if "weight_step" in call:
+        e["weight_step"] = call["weight_step"]
+    e["calls"] = case["calls"]
+    return e
+
+
 def build_env(case):
     P = pp()
     D = U.dt(case["dtype"])
@@ -243,27 +330,18 @@ def build_env(case):
     env.case = case
     env.D = D
     env.model = G.ProgModel(case)
-    env.ins = G.make_inputs(case)
-    env.input = G.pack_input(case, env.ins)
-    tg = case["targets"]
-    if tg is None:
-        env.target = None
-    else:
-        tl = [None if t is None else torch.tensor(t["values"], dtype=torch.float64).to(D).reshape(t["shape"]) for t in tg]
-        env.target = tl[0] if (len(case["roots"]) == 1 and not case.get("tuple_out")) else (tuple(tl) if case.get("target_tuple") else tl)
-    env.target_list = None if tg is None else tl
     env.kernels = build_arg(case["kernel"], build_kernel)
     env.corr_log, env.sol_log, env.str_log = [], [], []
     corr = build_arg(case["corrector"], build_corrector)
     inner = build_solver(case["solver"])
+    env.wctor, env.wctor_info = weight_tensors(case["weight_ctor"], D, with_info=True)
     if case["opt"] == "GN":
         opt = P.optim.GN(env.model, solver=inner, kernel=env.kernels, corrector=corr,
-                         weight=pass_weight(weight_tensors(case["weight_ctor"], D), case.get("wstyle", "list")),
-                         vectorize=case["vectorize"])
+                         weight=pass_weight(env.wctor, case.get("wstyle", "list")), vectorize=case["vectorize"])
     else:
         strat = RecStrategy(build_strategy(case["strategy"]), env.str_log) if case["strategy"] is not None else None
         opt = P.optim.LM(env.model, solver=inner, strategy=strat, kernel=env.kernels, corrector=corr,
-                         weight=pass_weight(weight_tensors(case["weight_ctor"], D), case.get("wstyle", "list")),
+                         weight=pass_weight(env.wctor, case.get("wstyle", "list")),
                          reject=case["reject"], min=case["min"], max=case["max"], vectorize=case["vectorize"])
         if strat is None:   # default strategy: wrap what the optimizer created
             opt.strategy = RecStrategy(opt.strategy, env.str_log)
@@ -279,7 +357,40 @@ def build_env(case):
     env.params = [getattr(env.model, n) for n in env.names]
     env.layout = G.tangent_layout(case)
     env.rg = [bool(p.requires_grad) for p in env.params]
+    env.ecase = None
+    env.ins = None
     return env
+
+
+def setup_call(env, ci):
+    """tensors of call `ci`: fresh objects, or (call['inplace']) the previous call's objects updated in place"""
+    case = env.case
+    call = case["calls"][ci]
+    ecase = effective_case(case, ci, env.ecase)
+    D = env.D
+    new_ins, new_bufs = G.make_inputs(ecase, with_bufs=True)
+    if call.get("inplace") and env.ins is not None and all(tuple(raw(a_).shape) == tuple(raw(b_).shape) for a_, b_ in zip(env.ins, new_ins)):
+        with torch.no_grad():
+            for a_, b_ in zip(env.ins, new_ins):
+                raw(a_).copy_(raw(b_))          # the caller keeps its tensors and overwrites them
+    else:
+        env.ins, env.in_bufs = new_ins, new_bufs
+    env.input = G.pack_input(ecase, env.ins)
+    tl, tinfo = target_tensors(ecase["targets"], D)
+    if (call.get("inplace") and getattr(env, "target_list", None) is not None and tl is not None
+            and len(tl) == len(env.target_list)
+            and all((a_ is None) == (b_ is None) and (a_ is None or a_.shape == b_.shape) for a_, b_ in zip(env.target_list, tl))):
+        with torch.no_grad():
+            for a_, b_ in zip(env.target_list, tl):
+                if a_ is not None:
+                    a_.copy_(b_)
+    else:
+        env.target_list, env.t_info = tl, tinfo
+    env.target = pack_target(ecase, env.target_list)
+    env.wstep, env.wstep_info = (weight_tensors(ecase["weight_step"], D, with_info=True)
+                                 if call.get("weight", "none") == "step" else (None, []))
+    env.ecase = ecase
+    return ecase
 
 
 # ----------------------------------------------------------------------------- independent float64 formulas
@@ -449,20 +560,56 @@ def residual_shapes(env):
     return [list(raw(o).shape) for o in outs], [raw(o).clone() for o in outs]   # clone: tensor() of a parameter aliases it
 
 
-def step_weight_for(case, call, D):
-    src = call.get("weight", "none")
-    if src == "step":
-        return weight_tensors(case["weight_step"], D)
-    return None
+def apply_param_edit(env, edit):
+    """the caller modifies parameters in place between two steps (copy_ / add_ / item assignment)"""
+    leaf_to_param = {}
+    ip = 0
+    for li, lf in enumerate(env.case["leaves"]):
+        if lf["role"] == "param":
+            leaf_to_param[li] = ip
+            ip += 1
+    with torch.no_grad():
+        for k_, ed in edit.items():
+            p_ = raw(env.params[leaf_to_param[int(k_)]])
+            v = torch.tensor(ed["values"], dtype=torch.float64).to(p_.dtype)
+            if ed["mode"] == "copy":
+                p_.copy_(v.reshape(p_.shape))
+            elif ed["mode"] == "add":
+                p_.add_(v.reshape(p_.shape))
+            else:   # item assignment
+                flat = p_.reshape(-1, p_.shape[-1]) if p_.dim() else p_.reshape(1, 1)
+                if flat.data_ptr() == p_.data_ptr() or p_.is_contiguous():
+                    flat[ed["item"]] = v.reshape(-1)
+                else:
+                    idx = list(torch.unravel_index(torch.tensor(ed["item"]), p_.shape[:-1]))
+                    p_[tuple(int(i_) for i_ in idx)] = v.reshape(-1)
 
 
-def effective_weight(case, call, D):
-    if call.get("weight", "none") == "step":
-        return weight_tensors(case["weight_step"], D)
-    return weight_tensors(case["weight_ctor"], D)
+def public_state(opt):
+    """attributes a step must not change (damping / radius / down / loss / last / reject_count are documented state)"""
+    pg = opt.param_groups[0]
+    return {"min": pg.get("min"), "max": pg.get("max"), "reject": getattr(opt, "reject", None),
+            "jackwargs": dict(opt.jackwargs), "solver": id(opt.solver), "strategy": id(getattr(opt, "strategy", None)),
+            "corrector": [id(c_) for c_ in opt.corrector], "n_groups": len(opt.param_groups),
+            "params": [id(p_) for p_ in pg["params"]], "high": pg.get("high"), "low": pg.get("low"), "up": pg.get("up"),
+            "factor": pg.get("factor")}
 
 
 def check_case(ctx: Ctx, case, pending):
+    """class (8) of the hardening list: whatever the implementation does (wrong shapes, wrong types, exceptions in places
+    the harness did not foresee) must end as a reported failure with the case, never as a crash of the harness"""
+    try:
+        return _check_case(ctx, case, pending)
+    except common.InfraError:
+        raise
+    except Exception as e:
+        import traceback
+        ctx.fail(cdesc(case), f"crash: the step produced something the check could not process — {type(e).__name__}: {str(e)[:160]} | "
+                              + traceback.format_exc()[-600:].replace("\n", " / "))
+        return False
+
+
+def _check_case(ctx: Ctx, case, pending):
     """runs every call of the case on the real code; oracles -> ctx.fail immediately; model comparisons are appended to
     `pending` as (line, callback(reply))"""
     P = pp()
@@ -486,6 +633,20 @@ def check_case(ctx: Ctx, case, pending):
         pg = opt.param_groups[0]
         for key, val in (call.get("pg_edit") or {}).items():
             pg[key] = val
+        ecase = setup_call(env, ci)
+        if call.get("param_edit"):
+            apply_param_edit(env, call["param_edit"])
+            ctx.count("reuse.param-edited-in-place")
+        if call.get("ctor_weight_edit") and env.wctor is not None:
+            with torch.no_grad():
+                for w_, vals in zip(env.wctor, call["ctor_weight_edit"]):
+                    if vals is not None and w_.is_contiguous():
+                        w_.copy_(torch.tensor(vals, dtype=torch.float64).to(w_.dtype).reshape(w_.shape))
+            ctx.count("reuse.ctor-weight-edited-in-place")
+        if call.get("inplace"):
+            ctx.count("reuse.inputs-updated-in-place")
+        if call.get("inputs") or "targets" in call or "weight_step" in call:
+            ctx.count("reuse.per-call-data-changed")
         before = [raw(p).clone() for p in env.params]
         shapes, outs0 = residual_shapes(env)
         nres = len(shapes)
@@ -501,8 +662,14 @@ def check_case(ctx: Ctx, case, pending):
             return False
         env.corr_log.clear(); env.sol_log.clear(); env.str_log.clear()
         env.solver.bad = list(call.get("bad") or [])
-        wstep = step_weight_for(case, call, env.D)
-        weff = effective_weight(case, call, env.D)
+        wstep = env.wstep
+        weff_t = env.wstep if call.get("weight", "none") == "step" else env.wctor
+        weff = None if weff_t is None else [w_.clone() for w_ in weff_t]       # logical values at call time
+        # what the caller holds, bit for bit (purity) + the optimizer's public attributes
+        held = ([("input", raw(t_)) for t_ in env.ins] + [("target", t_) for t_ in (env.target_list or []) if t_ is not None]
+                + [("step weight", t_) for t_ in (env.wstep or [])] + [("constructor weight", t_) for t_ in (env.wctor or [])])
+        snaps = [t_.clone() for _, t_ in held]
+        pub0 = public_state(opt)
         raised = None
         try:
             with contextlib.redirect_stdout(io.StringIO()), warnings.catch_warnings():
@@ -511,13 +678,37 @@ def check_case(ctx: Ctx, case, pending):
         except Exception as e:
             raised = e
         after = [raw(p).clone() for p in env.params]
+        # purity of everything the caller passed, guard regions of the buffers behind views, public attributes
+        for (nm, t_), s0 in zip(held, snaps):
+            if not torch.equal(torch.nan_to_num(t_, nan=12345.0), torch.nan_to_num(s0, nan=12345.0)):
+                ctx.fail(cd, f"purity: step() changed the caller's {nm} tensor ({tag})")
+                ok = False
+        bufs_ok = (all(G.guard_ok(b_, l_) for b_, l_ in getattr(env, "in_bufs", [])) and weight_guard_ok(env.wstep_info)
+                   and weight_guard_ok(env.wctor_info) and all(G.guard_ok(*i_) for i_ in getattr(env, "t_info", []) if i_ is not None))
+        for nm_, buf_, lay_ in env.model.param_bufs:
+            if lay_ == "zd":
+                bufs_ok = bufs_ok and bool(buf_[0] == G.GUARD) and bool(buf_[2] == G.GUARD)
+            else:
+                bufs_ok = bufs_ok and G.guard_ok(buf_, lay_)
+        if not bufs_ok:
+            ctx.fail(cd, f"purity: step() wrote outside a view (storage of the caller's buffer next to an input / target / weight / parameter view changed) ({tag})")
+            ok = False
+        pub1 = public_state(opt)
+        if pub1 != pub0:
+            diff = [k_ for k_ in pub0 if pub0[k_] != pub1[k_]]
+            ctx.fail(cd, f"attributes: step() changed public attributes {diff} of the optimizer ({tag})")
+            ok = False
         if raised is not None:
             msg = f"{type(raised).__name__}: {str(raised)[:160]}"
             _, outs1 = residual_shapes(env)
             if not all(bool(torch.isfinite(o).all()) for o in outs1):
                 ctx.count("degenerate.nonfinite-forward")   # a (deliberately bad) trial step left the model's domain
                 return ok
-            if n_frozen:
+            lays = [w_.get("layout", "contig") for w_ in ((ecase["weight_step"] if call.get("weight") == "step" else ecase["weight_ctor"]) or [])]
+            if "view size is not compatible" in str(raised) and any(l_ != "contig" for l_ in lays):
+                ctx.fail(cd, f"weight-view: step() raises for a valid SPD weight of a documented shape whose storage is not contiguous "
+                             f"(layouts {lays}): {msg}")
+            elif n_frozen:
                 ctx.fail(cd, f"frozen: step() raises for a model with a requires_grad=False parameter ({msg})")
             else:
                 ctx.fail(cd, f"raises: step() raises {msg}")
@@ -617,7 +808,7 @@ def check_case(ctx: Ctx, case, pending):
         # Jacobian oracle (finite differences of the real forward pass)
         if call.get("jac_check", True):
             try:
-                Jfd, rel = G.fd_jacobian(case, before)
+                Jfd, rel = G.fd_jacobian(ecase, before)
             except Exception as e:
                 Jfd, rel = None, 1.0
                 ctx.count("jac.fd-error")
